@@ -348,10 +348,10 @@ theorem stepDeps_inv (dops : DOps α B) (law : BatLaw dops.bat) (hex : UnloadExa
     (cvs : List (VehicleS α B)) (batIds : List String)
     (w' : SWorld α B) (ini' : DInit α) (acc' : List (String × α))
     (hgc : gc ∈ w.gcs) (hnd : batIds.Nodup) (hmin : MinOK w.batteries) (h0 : GcOK w)
-    (h : stepDeps dops de w ini acc gc stations cvs batIds = .ok (w', ini', acc')) :
+    (h : stepDepsRule dops de w ini acc gc stations cvs batIds = .ok (w', ini', acc')) :
     GcOK w' ∧ SameMeta w w' ∧ w'.batteries.map (·.id) = w.batteries.map (·.id) ∧ MinOK w'.batteries ∧
       ini' = ini := by
-  unfold stepDeps at h
+  unfold stepDepsRule at h
   simp only [bind, Except.bind] at h
   split at h
   · cases h
@@ -746,10 +746,10 @@ theorem stepOpps_inv (dops : DOps α B) (law : BatLaw dops.bat) (hex : UnloadExa
     (stations : List (StationS α)) (cvs : List (VehicleS α B)) (batIds : List String)
     (w' : SWorld α B) (ini' : DInit α) (acc' : List (String × α))
     (hgc : gc ∈ w.gcs) (hnd : batIds.Nodup) (hmin : MinOK w.batteries) (h0 : GcOK w)
-    (h : stepOpps dops de lk w ini acc gcId gc stations cvs batIds = .ok (w', ini', acc')) :
+    (h : stepOppsRule dops de lk w ini acc gcId gc stations cvs batIds = .ok (w', ini', acc')) :
     GcOK w' ∧ SameMeta w w' ∧ w'.batteries.map (·.id) = w.batteries.map (·.id) ∧ MinOK w'.batteries ∧
       ini'.gcBattery = ini.gcBattery ∧ ini'.strategies = ini.strategies := by
-  unfold stepOpps at h
+  unfold stepOppsRule at h
   simp only [bind, Except.bind] at h
   split at h
   · cases h
@@ -840,6 +840,7 @@ structure StepInv (w0 : SWorld α B) (gcb : List (String × List String)) (st : 
 
 theorem stepGc_inv (dops : DOps α B) (law : BatLaw dops.bat) (hex : UnloadExact dops.bat)
     (htot : AvailTotal dops.bat) (de : DEnv α) (hed : 0 ≤ de.deps.eps) (heo : 0 ≤ de.opps.eps)
+    (hd : de.deps.ps = none) (ho : de.opps.ps = none)
     (ncs : List (String × Option Int)) (conn : List (String × List String)) (lk : Look α)
     (w0 : SWorld α B) (gcb : List (String × List String)) (hgb : ∀ g, ((sdGet gcb g).getD []).Nodup)
     (st st' : SWorld α B × DInit α × List (String × α)) (gcId : String) (hinv : StepInv w0 gcb st)
@@ -867,16 +868,19 @@ theorem stepGc_inv (dops : DOps α B) (law : BatLaw dops.bat) (hex : UnloadExact
               obtain ⟨w', ini', acc'⟩ := st'
               cases kind with
               | deps =>
+                unfold stepDeps at h; simp only [hd] at h
                 obtain ⟨a, b, c, d, e⟩ := stepDeps_inv dops law hex htot de hed st.1 st.2.1 st.2.2 gc stations cvs _
                   w' ini' acc' hgm hnd hinv.batMin hinv.ok h
                 exact ⟨a, hinv.same.trans b, c.trans hinv.batIds, d, by rw [e]; exact hinv.gcb⟩
               | opps =>
+                unfold stepOpps at h; simp only [ho] at h
                 obtain ⟨a, b, c, d, e, _⟩ := stepOpps_inv dops law hex de heo lk st.1 st.2.1 st.2.2 gcId gc stations
                   cvs _ w' ini' acc' hgm hnd hinv.batMin hinv.ok h
                 exact ⟨a, hinv.same.trans b, c.trans hinv.batIds, d, e.trans hinv.gcb⟩
 
 theorem stepGc_fold (dops : DOps α B) (law : BatLaw dops.bat) (hex : UnloadExact dops.bat)
     (htot : AvailTotal dops.bat) (de : DEnv α) (hed : 0 ≤ de.deps.eps) (heo : 0 ≤ de.opps.eps)
+    (hd : de.deps.ps = none) (ho : de.opps.ps = none)
     (ncs : List (String × Option Int)) (conn : List (String × List String)) (lk : Look α)
     (w0 : SWorld α B) (gcb : List (String × List String)) (hgb : ∀ g, ((sdGet gcb g).getD []).Nodup)
     (ids : List String) (st st' : SWorld α B × DInit α × List (String × α)) (hinv : StepInv w0 gcb st)
@@ -890,7 +894,7 @@ theorem stepGc_fold (dops : DOps α B) (law : BatLaw dops.bat) (hex : UnloadExac
     split at h
     · cases h
     · rename_i st1 hst1
-      exact ih st1 (stepGc_inv dops law hex htot de hed heo ncs conn lk w0 gcb hgb st st1 id hinv hst1) h
+      exact ih st1 (stepGc_inv dops law hex htot de hed heo hd ho ncs conn lk w0 gcb hgb st st1 id hinv hst1) h
 
 /-- the final surplus pass (over the vehicles that hold a charging point) keeps limits and meta data -/
 theorem distributeSurplusOn_inv (ops : BatOps α B) (law : BatLaw ops) (env : StratEnv α) (heps : 0 ≤ env.eps)
@@ -1005,7 +1009,8 @@ theorem foldlM_preserves {σ ι : Type} (f : σ → ι → Py σ) (P : σ → σ
     · rename_i s1 hs1
       exact ht _ _ _ (hstep s i s1 hs1) (ih s1 h)
 
-theorem stepGc_frame (dops : DOps α B) (de : DEnv α) (ncs : List (String × Option Int))
+theorem stepGc_frame (dops : DOps α B) (de : DEnv α) (hd : de.deps.ps = none) (ho : de.opps.ps = none)
+    (ncs : List (String × Option Int))
     (conn : List (String × List String)) (lk : Look α)
     (st st' : SWorld α B × DInit α × List (String × α)) (gcId : String)
     (h : stepGc dops de ncs conn lk st gcId = .ok st') :
@@ -1041,7 +1046,7 @@ theorem stepGc_frame (dops : DOps α B) (de : DEnv α) (ncs : List (String × Op
                 · rw [hwb] at hm; exact hm
               cases kind with
               | deps =>
-                unfold stepDeps at h
+                unfold stepDeps at h; simp only [hd] at h; unfold stepDepsRule at h
                 simp only [bind, Except.bind] at h
                 split at h
                 · cases h
@@ -1059,7 +1064,7 @@ theorem stepGc_frame (dops : DOps α B) (de : DEnv α) (ncs : List (String × Op
                   rw [hgcs]
                   exact fin g1 _ hid (writeBack_gcs _ _ _ _)
               | opps =>
-                unfold stepOpps at h
+                unfold stepOpps at h; simp only [ho] at h; unfold stepOppsRule at h
                 simp only [bind, Except.bind] at h
                 split at h
                 · cases h
@@ -1098,7 +1103,7 @@ def toyOps (A : ℚ) : BatOps ℚ ℚ where
   unload b _ _ tp := .ok (b, min (max (tp.getD 0) 0) A)
   available _ := .ok A
 
-def toyDOps (A : ℚ) : DOps ℚ ℚ := ⟨toyOps A, fun _ soc => .ok soc, fun _ s => s⟩
+def toyDOps (A : ℚ) : DOps ℚ ℚ := ⟨toyOps A, fun _ soc => .ok soc, fun _ s => s, fun _ => A, List.sum⟩
 
 theorem toyOps_law (A : ℚ) (hA : 0 ≤ A) : BatLaw (toyOps A) where
   load_max := by
@@ -1138,7 +1143,8 @@ theorem toyOps_exact (A : ℚ) : UnloadExact (toyOps A) := by
 theorem toyOps_total (A : ℚ) : AvailTotal (toyOps A) := fun _ => ⟨A, rfl⟩
 
 def toyEnv : DEnv ℚ :=
-  ⟨⟨1/100000, 0, 4, 0, 900000000⟩, 1/4, ⟨.greedy, 1/100000, 0, 4, 900000000⟩, ⟨.balanced, 1/100000, 0, 4, 900000000⟩⟩
+  ⟨⟨1/100000, 0, 4, 0, 900000000⟩, 1/4, ⟨.greedy, 1/100000, 0, 4, 900000000, none⟩,
+    ⟨.balanced, 1/100000, 0, 4, 900000000, none⟩, []⟩
 
 /-- opportunity connector GC1 (limit 10 kW, 4 kW fixed load, price above the threshold) with one vehicle at an
 11 kW station and one stationary battery; depot connector GC2 (limit 20 kW) with one vehicle; 15-minute steps -/
@@ -1150,7 +1156,7 @@ def toyState : DState ℚ ℚ :=
               [⟨"BAT", "GC1", 0, 1/2⟩]⟩,
     numberCs := [("GC1", none), ("GC2", none)],
     connected := [("GC1", []), ("GC2", [])],
-    init := ⟨[("GC1", .opps), ("GC2", .deps)], [("GC1", ["BAT"])], [], []⟩,
+    init := ⟨[("GC1", .opps), ("GC2", .deps)], [("GC1", ["BAT"])], [], [], [], []⟩,
     future := [] }
 
 theorem toyState_wf :
